@@ -34,13 +34,15 @@ def gen_streams(r, n, nice, zones, dup_names=False):
         if r.random() < 0.04:
             tt = ts  # isothermal (latent) stream; heat_flow sign is positive -> cold
         name = f"S{k % 3 if dup_names else k}"
+        if r.random() < 0.02:
+            name = ""  # an unnamed stream (the schema allows it)
         out.append(
             dict(
                 zone=r.choice(zones),
                 name=name,
                 t_supply=ts,
                 t_target=tt,
-                heat_flow=_num(r, nice, 5, 5000, [100, 200, 500, 1000, 2400], (0, 2)),
+                heat_flow=_num(r, nice, 5, 5000, [100, 200, 500, 1000, 2400], (0, 2)) if (r.random() >= 0.03 or ts == tt) else 0.0,  # now and then a stream that carries no duty at all
                 dt_cont=_num(r, nice, 0, 20, [0, 2.5, 5, 5, 10], (0, 1)),
                 htc=_num(r, nice, 0.05, 5, [0.5, 1, 1, 2], (2,)),
             )
